@@ -20,7 +20,8 @@ type Profile struct {
 	Lifecycle   bool // planned panics in Initialized / Started
 	SpawnSends  bool
 	MaxBudget   int
-	BigBurst    bool // allow bursts > 4096 (crossing the batch size)
+	BigBurst    bool  // allow bursts > 4096 (crossing the batch size)
+	Spins       []int // choices for Spec.Spin (nil = never spin)
 }
 
 // Gen draws a raw history; Normalize makes it executable.
@@ -34,6 +35,9 @@ func Gen(t *rapid.T, p Profile) Spec {
 		s.Split = rapid.IntRange(0, s.Chain-1).Draw(t, "split")
 	}
 	s.SpawnCtx = rapid.SampledFrom([]string{"", "", "live", "cancelled"}).Draw(t, "spawn_ctx")
+	if len(p.Spins) > 0 {
+		s.Spin = rapid.SampledFrom(p.Spins).Draw(t, "spin")
+	}
 	if p.MaxChildren > 0 {
 		s.Children = rapid.IntRange(0, p.MaxChildren).Draw(t, "children")
 	}
